@@ -130,6 +130,8 @@ def post_allocs(entries, version='1.39'):
                        'consumer_generation': cgen_of(d, c, how),
                        'consumer_type': 'INSTANCE'}
             tag['cgen'][c] = body[c]['consumer_generation']
+            if int(version.split('.')[1]) < 38:
+                del body[c]['consumer_type']
         r = Req('POST', '/allocations', version, body)
         r['tag'] = tag
         return r
@@ -141,7 +143,7 @@ def delete_alloc(c):
 
 
 def reshape_move(src, rc, dst, how_src='cur', how_dst='cur',
-                 consumers_how='cur', also=None, how_also='cur'):
+                 consumers_how='cur', also=None, how_also='cur', attrs=None):
     """move inventory rc and its usage from src to dst; `also`: a third
     provider listed with the inventory it already has."""
     def b(d):
@@ -168,6 +170,11 @@ def reshape_move(src, rc, dst, how_src='cur', how_dst='cur',
                          'user_id': cons['user'],
                          'consumer_generation': cgen_of(d, c, consumers_how),
                          'consumer_type': cons['type'] or 'INSTANCE'}
+            if attrs:
+                # the reshape also names another project / user / type
+                allocs[c].update({'project_id': attrs[0],
+                                  'user_id': attrs[1],
+                                  'consumer_type': attrs[2]})
             tag['cgen'][c] = allocs[c]['consumer_generation']
         invs = {
             src: {'resource_provider_generation':
@@ -380,6 +387,16 @@ def scenarios_c06():
     out.append(('existing: post|reshape', {
         'A': post_allocs({K2: ({R: {'VCPU': 3}}, 'cur', 'pB')}),
         'B': reshape_move(R, 'VCPU', C)}))
+    out.append(('existing: put|reshape changing project, user, type', {
+        'A': put_alloc(K1, a2, 'cur', 'pA'),
+        'B': reshape_move(R, 'VCPU', C,
+                          attrs=('proj-rs', 'user-rs', 'RESHAPED'))}))
+    out.append(('existing: post (1.36, no type)|reshape changing attributes',
+                {'A': post_allocs({K2: ({R: {'VCPU': 3}}, 'cur', 'pB')},
+                                  '1.36'),
+                 'B': reshape_move(R, 'VCPU', C,
+                                   attrs=('proj-rs', 'user-rs',
+                                          'RESHAPED'))}))
     out.append(('existing: put-clear|put', {
         'A': put_alloc(K1, {}, 'cur', 'pA'),
         'B': put_alloc(K1, a1, 'cur', 'pB')}))
@@ -799,6 +816,20 @@ def judge(pid, scen_name, reqs, d0, result, serial, res, use_serial=True):
                     '%s [%s]: %s answered 409 %r with code %r' % (
                         scen_name, order, n, detail[:120], e.get('code')),
                     wit)
+    # --- (4) "rejected ... and changes nothing" ---------------------------------
+    # the net effect of all the commits made by the thread of a request that
+    # was answered 4xx is empty (what other requests committed in between is
+    # not attributed to it)
+    from pv import monitors as _mon
+    for n in names:
+        if statuses[n] is None or not 400 <= statuses[n] < 500:
+            continue
+        own = [(seq[i - 1][2], seq[i][2]) for i in range(1, len(seq))
+               if seq[i][1] == n]
+        if not own:
+            continue
+        _mon.c04_concurrent(reqs[n], results[n], own, wit, res, final,
+                            pid=pid)
     return outcome
 
 
